@@ -238,6 +238,170 @@ func TestCountFieldByteOrder(t *testing.T) {
 	}
 }
 
+// ---- count fields, decode direction ------------------------------------------------------------------------------
+//
+// count-fields judges what the encoder writes into a count field. The decoder is judged on the same two
+// encodings (described buffer 0x0102 and 0x0201 bytes or elements long, everything else equal), provided the
+// encoder side is in order, i.e. the count's slot holds the MS-CIFS little-endian image - then these bytes are
+// reference bytes as far as this field goes. Decoding them must give the count its value and the buffer its
+// length. A decoder that reads the count with the bytes swapped takes 0x0201 for 0x0102: it finds the longer
+// buffer's encoding acceptable and returns the shorter length. Where an encoding is refused the swapped image
+// is tried in its place: a decoder that refuses the little-endian image and accepts the swapped one, giving
+// exactly the count and the buffer length, reads the field byte-reversed. An encoding that is refused either way
+// is not judged (a structure that cannot read its own encoding is C04's finding).
+
+func countDecodeVerdict(c countCase) (fs []vf.Finding, status string) {
+	e, ok := smbgen.ByName(c.Struct)
+	if !ok {
+		return []vf.Finding{vf.F("harness", "bad-case", "unknown structure %s", c.Struct)}, "bad-case"
+	}
+	var rel *smbgen.Relation
+	for i, r := range smbgen.Relations[c.Struct] {
+		if r.Count == c.Count && r.Buffer == c.Buffer {
+			rel = &smbgen.Relations[c.Struct][i]
+		}
+	}
+	if rel == nil {
+		return []vf.Finding{vf.F("harness", "bad-case", "no relation %s.%s", c.Struct, c.Count)}, "bad-case"
+	}
+	cl := smbgen.CountSlot(e, c.Fields, *rel)
+	if cl.Problem != "" {
+		return nil, "not-exercised: " + cl.Problem
+	}
+	if cl.TypeWidth < 2 {
+		return nil, "8-bit"
+	}
+	if cl.Width != 2 || cl.Start+cl.TypeWidth > 1+2*int(cl.Enc[0]) || cl.Start+cl.TypeWidth > 1+2*int(cl.Enc2[0]) {
+		return nil, "not-exercised: no two-byte slot"
+	}
+	subject := c.Struct + "." + c.Count
+	image := func(n int, swapped bool) []byte {
+		b := make([]byte, cl.TypeWidth)
+		for i := range b {
+			b[i] = byte(n >> (8 * uint(i)))
+		}
+		if swapped {
+			for i, j := 0, len(b)-1; i < j; i, j = i+1, j-1 {
+				b[i], b[j] = b[j], b[i]
+			}
+		}
+		return b
+	}
+	decode := func(enc []byte) (count uint64, buffer int, err error) {
+		dec := smbgen.New(e)
+		if err := safeUnmarshal(dec, append([]byte{}, enc...)); err != nil {
+			return 0, 0, err
+		}
+		rv := reflect.ValueOf(dec).Elem()
+		cv, bv := fieldByPath(rv, c.Count), fieldByPath(rv, c.Buffer)
+		if !cv.IsValid() || !bv.IsValid() || !cv.CanUint() {
+			return 0, 0, fmt.Errorf("relation names a field the structure does not have")
+		}
+		if rel.Pad {
+			// an offset field that the decoders use as a pad length (recorded in C04): only the field's own value
+			// is a matter of encoding rules, how long the pad comes out is not
+			return cv.Uint(), int(cv.Uint()), nil
+		}
+		return cv.Uint(), bv.Len(), nil
+	}
+	judged := false
+	for _, v := range []struct {
+		n   int
+		enc []byte
+	}{{cl.N1, cl.Enc}, {cl.N2, cl.Enc2}} {
+		if !bytes.Equal(v.enc[cl.Start:cl.Start+cl.TypeWidth], image(v.n, false)) {
+			return nil, "encoder-side-not-little-endian" // count-fields reports it; no reference bytes to decode
+		}
+		count, buffer, err := decode(v.enc)
+		if err != nil {
+			probe := append([]byte{}, v.enc...)
+			copy(probe[cl.Start:], image(v.n, true))
+			if count, buffer, err2 := decode(probe); err2 == nil && count == uint64(v.n) && buffer == v.n {
+				return []vf.Finding{vf.F(subject, "byte-reversed-in-own-slot", "count %#x of %s: the little-endian image %x at %d is refused (%v), the byte-swapped image %x decodes as that count with a buffer of that length", v.n, c.Buffer, image(v.n, false), cl.Start, err, image(v.n, true))}, "judged"
+			}
+			continue
+		}
+		judged = true
+		if count == uint64(v.n) && buffer == v.n {
+			continue
+		}
+		var rev uint64
+		for _, b := range image(v.n, false) {
+			rev = rev<<8 | uint64(b)
+		}
+		kind := "other-decoding"
+		if count == rev {
+			kind = "byte-reversed-in-own-slot"
+		}
+		return []vf.Finding{vf.F(subject, kind, "little-endian bytes %x of the count %#x at %d, %s %d elements long: decoded count %#x, %d elements", image(v.n, false), v.n, cl.Start, c.Buffer, v.n, count, buffer)}, "judged"
+	}
+	if !judged {
+		return nil, "own-encoding-not-decodable"
+	}
+	return nil, "judged"
+}
+
+func fieldByPath(rv reflect.Value, path string) reflect.Value {
+	for _, name := range strings.Split(path, ".") {
+		if rv.Kind() != reflect.Struct {
+			return reflect.Value{}
+		}
+		if rv = rv.FieldByName(name); !rv.IsValid() {
+			return rv
+		}
+	}
+	return rv
+}
+
+func TestCountFieldDecode(t *testing.T) {
+	s := vf.Begin(t, P, "count-fields-decode")
+	type rel struct{ name, count, buffer string }
+	var rels []rel
+	for _, n := range smbgen.Names() {
+		for _, r := range smbgen.Relations[n] {
+			rels = append(rels, rel{n, r.Count, r.Buffer})
+		}
+	}
+	per := vf.N(3, 40)
+	idx := 0
+	status := map[string]string{}
+	judged := 0
+	vf.Rapid(s, len(rels)*per, func(t *rapid.T) countCase {
+		r := rels[(idx/per)%len(rels)]
+		idx++
+		e, _ := smbgen.ByName(r.name)
+		cmd := smbgen.New(e)
+		smbgen.Fill(t, cmd, smbgen.Options{MaxBytes: 8, MinElems: 1})
+		return countCase{r.name, r.count, r.buffer, smbgen.Snapshot(cmd)}
+	}, func(c countCase) []vf.Finding {
+		fs, st := countDecodeVerdict(c)
+		k := c.Struct + "." + c.Count
+		if st == "judged" {
+			judged++
+		}
+		if status[k] != "judged" {
+			status[k] = st
+		}
+		s.Class(strings.SplitN(st, ":", 2)[0])
+		return fs
+	}, func(c countCase) bool { return true })
+	var keys []string
+	for k := range status {
+		keys = append(keys, k)
+	}
+	sort.Strings(keys)
+	var not []string
+	for _, k := range keys {
+		if status[k] != "judged" && status[k] != "8-bit" {
+			not = append(not, k+" ("+status[k]+")")
+		}
+	}
+	s.Note("%d count relations decoded at both buffer lengths; not judged: %v", len(rels), not)
+	if judged == 0 && !t.Failed() && os.Getenv("VERIF_REPLAY") == "" {
+		t.Fatalf("INFRA: no count relation could be decoded")
+	}
+}
+
 // ---- AndX block layout --------------------------------------------------------------------------------------
 
 type andxCase struct {
@@ -349,6 +513,51 @@ func checkDialects(c dialectCase) []vf.Finding {
 			fs = append(fs, vf.F("Dialects.Unmarshal", "consumed-differs", "n=%d want %d", n, len(want)))
 		}
 	}
+	return append(fs, checkNegotiateDialects(c, want)...)
+}
+
+// The same entries inside the structure that carries them: MS-CIFS 2.2.4.52.1, SMB_COM_NEGOTIATE request -
+// WordCount 0x00, ByteCount, then the dialect entries and nothing else. The data block the library emits must be
+// the reference list (every entry whole: format byte, name, terminator), and the reference bytes must decode
+// to the same names.
+func checkNegotiateDialects(c dialectCase, want []byte) (fs []vf.Finding) {
+	if len(want) > 65535 {
+		return nil
+	}
+	e, ok := smbgen.ByName("NegotiateRequest")
+	if !ok {
+		return nil // reachability of the structure is C04's subject
+	}
+	set := func(cmd smbgen.Cmd) bool {
+		d := reflect.ValueOf(cmd).Elem().FieldByName("Dialects")
+		if !d.IsValid() || d.Kind() != reflect.Struct || !d.FieldByName("Dialects").IsValid() {
+			return false
+		}
+		d.FieldByName("Dialects").Set(reflect.ValueOf(append([]string{}, c.Dialects...)))
+		return true
+	}
+	cmd := smbgen.NewValid(e)
+	if !set(cmd) {
+		return nil
+	}
+	ref := append([]byte{0x00, byte(len(want)), byte(len(want) >> 8)}, want...)
+	if enc, err := marshalAny(cmd); err != nil || !bytes.Equal(enc, ref) {
+		d := 0
+		for d < len(enc) && d < len(ref) && enc[d] == ref[d] {
+			d++
+		}
+		fs = append(fs, vf.F("NegotiateRequest.Dialects", "dialects-differ-from-ms-cifs", "%d dialects: err %v, %d bytes, MS-CIFS 2.2.4.52.1 gives %d bytes, first difference at byte %d", len(c.Dialects), err, len(enc), len(ref), d))
+	}
+	if len(c.Dialects) == 0 {
+		return fs // two empty blocks are also what an error reply looks like: what a request decoder makes of them is not asked
+	}
+	back := smbgen.New(e)
+	if err := safeUnmarshal(back, append([]byte{}, ref...)); err != nil {
+		return append(fs, vf.F("NegotiateRequest.Dialects", "ms-cifs-dialect-list-misread", "%d dialects, %d bytes: %v", len(c.Dialects), len(ref), err))
+	}
+	if got, ok := reflect.ValueOf(back).Elem().FieldByName("Dialects").FieldByName("Dialects").Interface().([]string); !ok || !reflect.DeepEqual(got, c.Dialects) {
+		fs = append(fs, vf.F("NegotiateRequest.Dialects", "ms-cifs-dialect-list-misread", "%d dialects decoded as %d: %q", len(c.Dialects), len(got), got))
+	}
 	return fs
 }
 
@@ -357,21 +566,38 @@ var dialectNames = []string{"PC NETWORK PROGRAM 1.0", "PCLAN1.0", "MICROSOFT NET
 func TestDialects(t *testing.T) {
 	s := vf.Begin(t, P, "dialects")
 	vf.Rapid(s, vf.N(3000, 50000), func(t *rapid.T) dialectCase {
+		// 0..40 entries (mostly a handful), one case in ten all 13 defined names together plus a few more; names
+		// are the defined ones or any NUL-free byte string, mostly of 0..12 bytes, now and then up to 300: the
+		// list passes 255 bytes and the entry count passes the number of defined dialects
+		var ds []string
 		n := rapid.IntRange(0, 8).Draw(t, "n")
-		ds := make([]string, n)
-		for i := range ds {
+		switch shape := rapid.IntRange(0, 9).Draw(t, "shape"); {
+		case shape == 0:
+			ds = append(ds, dialectNames...)
+			n = rapid.IntRange(0, 4).Draw(t, "extra")
+		case shape <= 2:
+			n = rapid.IntRange(9, 40).Draw(t, "many")
+		}
+		for i := 0; i < n; i++ {
 			if rapid.IntRange(0, 3).Draw(t, "custom") == 0 {
 				// any NUL-free name, the empty one included ("02 00" is a well-formed entry)
 				l := rapid.IntRange(0, 12).Draw(t, "len")
+				if rapid.IntRange(0, 7).Draw(t, "long") == 0 {
+					l = rapid.IntRange(13, 300).Draw(t, "longLen")
+				}
 				b := make([]byte, l)
 				for j := range b {
 					b[j] = byte(rapid.IntRange(1, 255).Draw(t, "ch"))
 				}
-				ds[i] = string(b)
+				ds = append(ds, string(b))
 			} else {
-				ds[i] = dialectNames[rapid.IntRange(0, len(dialectNames)-1).Draw(t, "name")]
+				ds = append(ds, dialectNames[rapid.IntRange(0, len(dialectNames)-1).Draw(t, "name")])
 			}
 		}
+		if ds == nil {
+			ds = []string{}
+		}
+		s.Class(fmt.Sprintf("list-bytes:%s", map[bool]string{false: "<=255", true: ">255"}[len(refDialects(ds)) > 255]))
 		return dialectCase{ds}
 	}, checkDialects, func(c dialectCase) bool { return len(c.Dialects) >= 2 })
 }
@@ -453,7 +679,8 @@ func TestHeaderLittleEndian(t *testing.T) {
 // image of a pattern into that slot yields the bytes an MS-CIFS encoder produces for "this assignment
 // with the pattern in that field". Decoding them must put the pattern's value into the field. (An
 // encoder and a decoder that are both big-endian round-trip; only this direction shows the decoder.)
-// A structure that cannot decode even its own encoding is C04's finding and is not judged here.
+// A structure that cannot decode even its own encoding is C04's finding and is not judged here; a field that does
+// not come back from the library's own encoding is judged all the same (on the reference bytes).
 
 func safeUnmarshal(c smbgen.Cmd, b []byte) (err error) {
 	defer func() {
@@ -479,26 +706,34 @@ func decodeRefVerdict(c markCase) ([]vf.Finding, string) {
 	if err := safeUnmarshal(own, append([]byte{}, sl.Enc...)); err != nil {
 		return nil, "own-encoding-not-decodable"
 	}
-	// what the encoder wrote for the pattern must at least come back from the decoder; a field that does
-	// not round-trip (decoded from another place, never decoded) is C04's finding, not a matter of encoding rules
-	if !bytes.Equal(smbgen.PatternOf(reflect.ValueOf(own).Elem().FieldByName(c.Field)), sl.LE) {
-		return nil, "field-does-not-round-trip"
+	// Whether the decoder gives back what the library's own encoder wrote does not decide whether the decoder is
+	// judged: an encoder that is right and a decoder that is not do not round-trip either, and that is exactly
+	// the decoder this sub-check is about. It only decides the name of a finding that is not a plain byte swap.
+	roundTrips := bytes.Equal(smbgen.PatternOf(reflect.ValueOf(own).Elem().FieldByName(c.Field)), sl.LE)
+	status := "judged"
+	if !roundTrips {
+		status = "judged:field-does-not-round-trip"
 	}
 	ref := append([]byte{}, sl.Enc...)
 	copy(ref[sl.Start:], sl.LE)
 	dec := smbgen.New(e)
 	if err := safeUnmarshal(dec, ref); err != nil {
-		return []vf.Finding{vf.F(subject, "reference-encoding-rejected", "little-endian image %x in the field's slot [%d,+%d): %v", sl.LE, sl.Start, sl.Width, err)}, "judged"
+		return []vf.Finding{vf.F(subject, "reference-encoding-rejected", "little-endian image %x in the field's slot [%d,+%d): %v", sl.LE, sl.Start, sl.Width, err)}, status
 	}
 	fv := reflect.ValueOf(dec).Elem().FieldByName(c.Field)
 	got := smbgen.PatternOf(fv)
 	if bytes.Equal(got, sl.LE) {
-		return nil, "judged"
+		return nil, status
 	}
 	if bytes.Equal(got, reversedPerElement(sl.LE, elemWidth(fv.Type()))) {
-		return []vf.Finding{vf.F(subject, "byte-reversed-in-own-slot", "slot bytes %x decoded as the value whose little-endian image is %x", sl.LE, got)}, "judged"
+		return []vf.Finding{vf.F(subject, "byte-reversed-in-own-slot", "slot bytes %x decoded as the value whose little-endian image is %x", sl.LE, got)}, status
 	}
-	return []vf.Finding{vf.F(subject, "other-decoding", "slot bytes %x decoded as the value whose little-endian image is %x", sl.LE, got)}, "judged"
+	if !roundTrips {
+		// the decoder reads the field from somewhere else or not at all (the library's own encoding does not come
+		// back either): its own kind, so that it is told apart from a decoder that reads the right bytes wrongly
+		return []vf.Finding{vf.F(subject, "reference-bytes-not-decoded-into-field", "slot bytes %x at [%d,+%d) decoded as the value whose little-endian image is %x (the library's own encoding does not round-trip this field either)", sl.LE, sl.Start, sl.Width, got)}, status
+	}
+	return []vf.Finding{vf.F(subject, "other-decoding", "slot bytes %x decoded as the value whose little-endian image is %x", sl.LE, got)}, status
 }
 
 func TestDecodeVsRef(t *testing.T) {
@@ -868,8 +1103,11 @@ func specFormats() []formatCase {
 }
 
 // formatByte encodes the structure with the field's BufferFormat member set to set and returns the byte
-// that introduces the field's content (ok false: no well-defined place, C04's subject).
-func formatByte(c formatCase, set uint8) (b uint8, detail string, ok bool) {
+// that introduces the field's content (ok false: no well-defined place, C04's subject), and, in whole, what
+// stands at that place against the reference encoding of a buffer-format string with that format byte and the
+// field's content: format byte, (length,) content, (terminator) - want is nil when the introducing byte is not
+// a buffer format at all.
+func formatByte(c formatCase, set uint8) (b uint8, detail string, got, want []byte, ok bool) {
 	e, _ := smbgen.ByName(c.Struct)
 	cmd := smbgen.New(e)
 	fv := reflect.ValueOf(cmd).Elem().FieldByName(c.Field)
@@ -882,40 +1120,56 @@ func formatByte(c formatCase, set uint8) (b uint8, detail string, ok bool) {
 	smbgen.ApplyRelations(cmd)
 	sl := smbgen.MarkVar(e, smbgen.Snapshot(cmd), c.Field)
 	if sl.ProblemKind != "" {
-		return 0, "", false
+		return 0, "", nil, nil, false
 	}
 	at := sl.Start - 1
 	if c.Spec == 1 || c.Spec == 3 || c.Spec == 5 {
 		at = sl.Start - 3 // format byte, 16-bit length, content
 	}
 	if at < 0 {
-		return 0, "", false
+		return 0, "", nil, nil, false
 	}
-	return sl.Enc[at], fmt.Sprintf("content at %d introduced by %x", sl.Start, sl.Enc[at:sl.Start]), true
+	b = sl.Enc[at]
+	if b >= 1 && b <= 5 {
+		want = refString(b, sl.Got)
+		got = sl.Enc[at:min(at+len(want), len(sl.Enc))]
+	}
+	return b, fmt.Sprintf("content at %d introduced by %x", sl.Start, sl.Enc[at:sl.Start]), got, want, true
 }
 
 // The BufferFormat member of a string is itself a field value. Some commands overwrite it when they
 // encode (they decide the format: it must be the one MS-CIFS requires), others emit what the caller
-// put there (then the required format is the caller's to set, and it must come out unchanged).
+// put there (then the required format is the caller's to set, and it must come out unchanged). Whichever
+// format byte stands there, the string behind it is whole: "each buffer-format string carries its own format
+// byte and terminator" - the bytes from the format byte on are the reference encoding of that format for the
+// field's content (16-bit length for 0x01/0x03/0x05, NUL terminator for 0x02/0x03/0x04), inside the message.
 func checkFieldFormat(c formatCase) []vf.Finding {
 	if _, ok := smbgen.ByName(c.Struct); !ok {
 		return []vf.Finding{vf.F("harness", "bad-case", "unknown structure %s", c.Struct)}
 	}
 	subject := c.Struct + "." + c.Field
-	got, detail, ok := formatByte(c, c.Spec)
+	got, detail, have, want, ok := formatByte(c, c.Spec)
 	if !ok {
 		return nil
 	}
 	if got != c.Spec {
 		return []vf.Finding{vf.F(subject, "buffer-format-differs-from-ms-cifs", "BufferFormat %#02x as MS-CIFS requires: %s", c.Spec, detail)}
 	}
+	if !bytes.Equal(have, want) {
+		return []vf.Finding{vf.F(subject, "buffer-format-string-differs-from-ms-cifs", "BufferFormat %#02x: the string is emitted as %x, the reference encoding is %x", c.Spec, have, want)}
+	}
 	// a caller that sets another format of the same framing gets either that format or the required one
 	alt := map[uint8]uint8{1: 5, 5: 1, 2: 4, 4: 2}[c.Spec]
 	if alt == 0 {
 		return nil
 	}
-	if got, detail, ok := formatByte(c, alt); ok && got != alt && got != c.Spec {
-		return []vf.Finding{vf.F(subject, "buffer-format-differs-from-ms-cifs", "BufferFormat set to %#02x, MS-CIFS requires %#02x: %s", alt, c.Spec, detail)}
+	if got, detail, have, want, ok := formatByte(c, alt); ok {
+		if got != alt && got != c.Spec {
+			return []vf.Finding{vf.F(subject, "buffer-format-differs-from-ms-cifs", "BufferFormat set to %#02x, MS-CIFS requires %#02x: %s", alt, c.Spec, detail)}
+		}
+		if !bytes.Equal(have, want) {
+			return []vf.Finding{vf.F(subject, "buffer-format-string-differs-from-ms-cifs", "BufferFormat set to %#02x: the string is emitted as %x, the reference encoding is %x", alt, have, want)}
+		}
 	}
 	return nil
 }
@@ -934,6 +1188,106 @@ func TestFieldBufferFormats(t *testing.T) {
 			yield(c)
 		}
 	}, checkFieldFormat, nil)
+}
+
+// ---- every string field that carries a format byte is a whole buffer-format string ------------------------------------
+//
+// buffer-format-per-field covers the fields whose doc comment quotes the format MS-CIFS requires. The framing rule
+// itself needs no comment: "each buffer-format string carries its own format byte and terminator". For every
+// string field of every structure the content is located by marking; where the format the structure holds after
+// encoding (the caller's, or the one the encoder decided) stands in front of it - one byte before the content for
+// the NUL-terminated formats 0x02/0x04, three bytes before it, followed by a 16-bit length, for 0x01/0x03/0x05 -
+// the bytes from the format byte on must be the reference encoding of that format for that content, inside the
+// message: format byte, little-endian length where the format has one, content, NUL where the format has one.
+// An encoder that drops the terminator of a trailing string (the byte count delimits it) and a decoder that puts
+// it back round-trip; this is where they show. A string emitted without that framing is not judged here.
+
+type framingCase struct {
+	Struct string                     `json:"struct"`
+	Field  string                     `json:"field"`
+	Fields map[string]json.RawMessage `json:"fields"`
+}
+
+func framingVerdict(c framingCase) (fs []vf.Finding, status string) {
+	e, ok := smbgen.ByName(c.Struct)
+	if !ok {
+		return []vf.Finding{vf.F("harness", "bad-case", "unknown structure %s", c.Struct)}, "bad-case"
+	}
+	sl := smbgen.MarkVar(e, c.Fields, c.Field)
+	if sl.ProblemKind != "" || len(sl.Got) != sl.TypeWidth {
+		return nil, "not-located"
+	}
+	// the format the field holds once the structure has been encoded
+	cmd := smbgen.New(e)
+	if err := smbgen.Restore(cmd, c.Fields); err != nil {
+		return []vf.Finding{vf.F("harness", "bad-case", "%v", err)}, "bad-case"
+	}
+	if _, err := marshalAny(cmd); err != nil {
+		return nil, "not-located"
+	}
+	str := reflect.ValueOf(cmd).Elem().FieldByName(c.Field)
+	if str.Type().String() == "types.OEM_STRING" {
+		str = str.FieldByName("SMB_STRING")
+	}
+	f := uint8(str.FieldByName("BufferFormat").Uint())
+	n := len(sl.Got)
+	at := -1
+	switch f {
+	case 2, 4:
+		if sl.Start >= 1 && sl.Enc[sl.Start-1] == f {
+			at = sl.Start - 1
+		}
+	case 1, 3, 5:
+		if sl.Start >= 3 && sl.Enc[sl.Start-3] == f && (sl.Enc[sl.Start-2] == byte(n) || sl.Enc[sl.Start-1] == byte(n)) {
+			at = sl.Start - 3
+		}
+	}
+	if at < 1+2*int(sl.Enc[0])+2 {
+		return nil, "not-framed-as-buffer-format-string"
+	}
+	want := refString(f, sl.Got)
+	got := sl.Enc[at:min(at+len(want), len(sl.Enc))]
+	if !bytes.Equal(got, want) {
+		return []vf.Finding{vf.F(c.Struct+"."+c.Field, "buffer-format-string-differs-from-ms-cifs", "format %#02x, %d content bytes at %d of a %d-byte message: emitted %x, the reference encoding is %x", f, n, sl.Start, len(sl.Enc), got, want)}, "judged"
+	}
+	return nil, "judged"
+}
+
+func TestStringFieldFraming(t *testing.T) {
+	s := vf.Begin(t, P, "string-fields-framing")
+	var targets [][2]string
+	for _, e := range smbgen.Inventory() {
+		for _, f := range smbgen.OwnFields(smbgen.New(e)) {
+			if smbgen.IsByteField(f.Type) && f.Type.Kind() == reflect.Struct {
+				targets = append(targets, [2]string{e.Name, f.Name})
+			}
+		}
+	}
+	s.Note("%d string fields", len(targets))
+	if len(targets) < 20 {
+		t.Fatalf("INFRA: only %d string fields found", len(targets))
+	}
+	per := vf.N(3, 40)
+	idx := 0
+	judged := 0
+	vf.Rapid(s, len(targets)*per, func(t *rapid.T) framingCase {
+		tg := targets[(idx/per)%len(targets)]
+		idx++
+		e, _ := smbgen.ByName(tg[0])
+		cmd := smbgen.New(e)
+		smbgen.Fill(t, cmd, smbgen.Options{MaxBytes: 12, MinBytes: 1})
+		return framingCase{tg[0], tg[1], smbgen.Snapshot(cmd)}
+	}, func(c framingCase) []vf.Finding {
+		fs, st := framingVerdict(c)
+		if st == "judged" {
+			judged++
+		}
+		s.Class(st)
+		return fs
+	}, func(c framingCase) bool { return true })
+	if judged == 0 && !t.Failed() && os.Getenv("VERIF_REPLAY") == "" {
+		t.Fatalf("INFRA: no string field could be judged")
+	}
 }
 
 // ---- widths on the wire: a field owns exactly as many bytes as its type is wide --------------------------------
@@ -977,6 +1331,22 @@ func checkWireWidths(c layoutCase) []vf.Finding {
 			fs = append(fs, vf.F(c.Struct+"."+a.Name, "occupies-more-bytes-than-its-type", "%d-byte type at %d, next field %s at %d (%d bytes of count fields between): %d bytes unaccounted for", a.Width, a.Start, b.Name, b.Start, b.Between, extra))
 		}
 	}
+	// The same rule where the successor is not a markable fixed-width field: what follows a fixed-width field
+	// (or a count field, or a byte field with its terminator) in the declaration and in the same block - a
+	// count field, a byte buffer, a string behind its format byte (and length) - starts exactly where that
+	// field ends. A UCHAR written as two bytes in front of a pad buffer shows here and nowhere else.
+	if located, ok := smbgen.Locate(e, c.Fields); ok {
+		have := map[string]bool{}
+		for _, f := range fs {
+			have[f.Subject] = true
+		}
+		for _, g := range smbgen.Gaps(e, c.Fields, located) {
+			if subject := c.Struct + "." + g.Prev.Name; !have[subject] {
+				have[subject] = true
+				fs = append(fs, vf.F(subject, "occupies-more-bytes-than-its-type", "%s (%s) ends at %d, next field %s (%s) starts at %d behind %d bytes of its own framing: %d bytes unaccounted for", g.Prev.Name, g.Prev.Class, g.PrevEnd, g.Next.Name, g.Next.Class, g.Next.Start, g.Lead, g.Next.Start-g.PrevEnd-g.Lead))
+			}
+		}
+	}
 	more, _ := checkBlockTotals(e, c)
 	return append(fs, more...)
 }
@@ -1001,6 +1371,11 @@ func checkBlockTotals(e smbgen.Entry, c layoutCase) (fs []vf.Finding, status str
 			return nil, "word-count-not-judged:" + sk.Why
 		}
 	}
+	for _, li := range l.Lists {
+		if li.Why != "list-in-data-block" {
+			return nil, "word-count-not-judged:" + li.Why
+		}
+	}
 	sum := 0
 	if e.AndX {
 		sum = 4
@@ -1009,16 +1384,20 @@ func checkBlockTotals(e smbgen.Entry, c layoutCase) (fs []vf.Finding, status str
 		if f.Start >= l.ParamEnd {
 			continue
 		}
-		if f.Class == "bytes" {
+		switch f.Class {
+		case "fixed", "count":
+			sum += f.TypeWidth
+		case "bytes":
 			return nil, "word-count-not-judged:byte-field-in-parameter-block"
+		default:
+			return nil, "word-count-not-judged:" + f.Class + "-in-parameter-block"
 		}
-		sum += f.TypeWidth
 	}
 	if wc := int(l.Enc[0]); 2*wc != sum+sum%2 {
 		fs = append(fs, vf.F(c.Struct, "word-count-differs-from-declared-widths", "%d parameter words, the types of the fields in the parameter block add up to %d bytes", wc, sum))
 	}
 	own := smbgen.OwnFields(smbgen.New(e))
-	if n := len(l.Locs); n > 0 && len(own) > 0 && l.Locs[n-1].Name == own[len(own)-1].Name && l.Locs[n-1].Class != "bytes" && l.Locs[n-1].Start >= l.ParamEnd+2 {
+	if n := len(l.Locs); n > 0 && len(own) > 0 && l.Locs[n-1].Name == own[len(own)-1].Name && (l.Locs[n-1].Class == "fixed" || l.Locs[n-1].Class == "count") && l.Locs[n-1].Start >= l.ParamEnd+2 {
 		if last := l.Locs[n-1]; last.Start+last.TypeWidth != len(l.Enc) {
 			fs = append(fs, vf.F(c.Struct+"."+last.Name, "occupies-more-bytes-than-its-type", "%d-byte type at %d is the last field, the message ends at %d", last.TypeWidth, last.Start, len(l.Enc)))
 		}
